@@ -306,12 +306,14 @@ def catalogue(quick):
         if quick and len(spec["v"]) == 3 and spec["v"][0] != [0.0, 0.0, 0.0]:
             continue
         d2 = ["points"] if spec["v"] == [[0.0, 0.0, 0.0], [1.0, 1.0, 0.0], [2.0, 1.0, 1.0]] else []
-        add(spec, full_cap=(base["full_cap"] if quick else everything), depth2=d2)
+        # quick: data-level operations on the clouds of size 1 and 3 only (size 2 adds no new data path)
+        add(spec, full_cap=(base["full_cap"] if quick else everything), depth2=d2,
+            data_ops=not (quick and len(spec["v"]) == 2))
     # drillholes (collar only / with a survey)
     add(L.drillhole_spec([1.0, 2.0, 0.5]), full_cap=everything)
     add(L.drillhole_spec([1.0, 2.0, 0.5], surveys=[[0.0, 10.0, -80.0], [5.0, 12.0, -75.0]]), full_cap=everything)
     # curves / surfaces of the C07 catalogue placed on the lattice
-    for place in (["A", "B", "D"] if quick else list(L.PLACE4)):
+    for place in (["A", "D"] if quick else list(L.PLACE4)):
         for cells in L.CURVE_CELLS:
             add(L.curve_spec(place, cells), full_cap=everything, depth2=["curve"] if (place == "A" or not quick) else [])
     perms = list(itertools.permutations(range(4)))
@@ -334,9 +336,11 @@ def catalogue(quick):
             for size in (L.SIZES if (nu, nv) == (2, 2) else L.SIZES[:1]):
                 for rot in L.ROTATIONS:
                     for dip in L.DIPS:
-                        if nu * nv == 6 and (rot, dip) not in ((30.0, 0.0), (30.0, 30.0), (-45.0, 0.0), (-45.0, 30.0), (0.0, 0.0), (90.0, 30.0)):
+                        if nu * nv == 6 and (rot, dip) not in ((30.0, 0.0), (30.0, 30.0), (-45.0, 30.0), (0.0, 0.0)):
                             continue
-                        if size != L.SIZES[0] and rot not in (30.0, -45.0, 90.0):
+                        if size != L.SIZES[0] and rot != 30.0:
+                            continue
+                        if nu * nv == 1 and rot not in (0.0, 30.0):
                             continue
                         d2 = ["grid2d"] if (nu, nv, size, rot, dip) in (
                             (2, 2, L.SIZES[0], 30.0, 30.0), (2, 2, L.SIZES[0], -45.0, 0.0)) else []
